@@ -334,6 +334,213 @@ fn wire_body(c: &WireCase, ch: &Chooser) -> Outcome {
     o
 }
 
+// ---------------------------------------------------------------------------------------------
+// the HTTP/2 messages that really cross the transport, observed by NON-tonic peers
+
+#[derive(Clone, Debug)]
+struct NetCase {
+    call: CallCase,
+    /// true: tonic client -> bare hyper server (judge the request); false: bare hyper client ->
+    /// tonic server (judge the response)
+    judge_request: bool,
+    c2s: Option<Enc>,
+    chop: usize,
+}
+
+#[derive(Default, Debug, Clone)]
+struct NetSeen {
+    method: Option<http::Method>,
+    uri: Option<http::Uri>,
+    version: Option<http::Version>,
+    headers: HeaderMap,
+    data: Vec<u8>,
+    trailers: Option<HeaderMap>,
+    status: Option<http::StatusCode>,
+    error: Option<String>,
+    requests: u32,
+}
+
+fn net_run(c: &NetCase, ch: &Chooser) -> NetSeen {
+    use crate::env::vnet::{self, ConnectMode};
+    use http_body_util::BodyExt;
+    let rt = vnet::runtime(21);
+    let c = c.clone();
+    let ch = ch.clone();
+    rt.block_on(async move {
+        let (st, mut rx) = vnet::connector_state(ConnectMode::Succeed, false, c.chop);
+        let seen = Arc::new(Mutex::new(NetSeen::default()));
+        let horizon = std::time::Duration::from_secs(3600);
+        if c.judge_request {
+            // bare hyper HTTP/2 server: records the request, answers one message + OK trailers
+            let seen2 = seen.clone();
+            tokio::spawn(async move {
+                while let Some(io) = rx.recv().await {
+                    let seen3 = seen2.clone();
+                    tokio::spawn(async move {
+                        let svc = hyper::service::service_fn(move |req: http::Request<hyper::body::Incoming>| {
+                            let seen4 = seen3.clone();
+                            async move {
+                                let (parts, body) = req.into_parts();
+                                let col = body.collect().await;
+                                {
+                                    let mut s = seen4.lock().unwrap();
+                                    s.requests += 1;
+                                    s.method = Some(parts.method.clone());
+                                    s.uri = Some(parts.uri.clone());
+                                    s.version = Some(parts.version);
+                                    s.headers = parts.headers.clone();
+                                    match col {
+                                        Ok(col) => {
+                                            s.trailers = col.trailers().cloned();
+                                            s.data = col.to_bytes().to_vec();
+                                        }
+                                        Err(e) => s.error = Some(e.to_string()),
+                                    }
+                                }
+                                let mut t = HeaderMap::new();
+                                t.insert("grpc-status", http::HeaderValue::from_static("0"));
+                                let frames: Vec<Result<http_body::Frame<bytes::Bytes>, std::convert::Infallible>> =
+                                    vec![Ok(http_body::Frame::data(bytes::Bytes::from(wire::encode_frame(0, &[9])))), Ok(http_body::Frame::trailers(t))];
+                                let body = http_body_util::StreamBody::new(tokio_stream::iter(frames));
+                                Ok::<_, std::convert::Infallible>(http::Response::builder().status(200).header("content-type", "application/grpc").body(body).unwrap())
+                            }
+                        });
+                        let _ = hyper::server::conn::http2::Builder::new(hyper_util::rt::TokioExecutor::new()).serve_connection(hyper_util::rt::TokioIo::new(io), svc).await;
+                    });
+                }
+            });
+            let chn = match vnet::within(horizon, tonic::transport::Endpoint::from_static("http://c03.test:1").connect_with_connector(vnet::connector(st))).await {
+                Some(Ok(c)) => c,
+                _ => {
+                    seen.lock().unwrap().error = Some("connect failed".into());
+                    return seen.lock().unwrap().clone();
+                }
+            };
+            let mut client = EchoClient::new(chn);
+            if let Some(e) = c.c2s {
+                client = client.send_compressed(tonic_enc(e));
+            }
+            let _ = vnet::within(horizon, client_call(&mut client, c.call.shape, c.call.req_msgs.clone(), &c.call.req_md, true, &ch, |_| {})).await;
+            vnet::settle().await;
+        } else {
+            let (server, _log) = new_server(c.call.script.clone(), &ch, true);
+            tokio::spawn(async move {
+                let _ = tonic::transport::Server::builder().add_service(server).serve_with_incoming(vnet::incoming(rx)).await;
+            });
+            use tower_service::Service;
+            let mut conn = vnet::connector(st);
+            let Ok(io) = conn.call(http::Uri::from_static("http://c03.test:1")).await else {
+                seen.lock().unwrap().error = Some("pipe".into());
+                return seen.lock().unwrap().clone();
+            };
+            let Ok((mut send, connection)) = hyper::client::conn::http2::handshake(hyper_util::rt::TokioExecutor::new(), io).await else {
+                seen.lock().unwrap().error = Some("handshake".into());
+                return seen.lock().unwrap().clone();
+            };
+            tokio::spawn(async move {
+                let _ = connection.await;
+            });
+            let mut body = vec![];
+            let msgs: Vec<Vec<u8>> = if c.call.shape.streams_requests() { c.call.req_msgs.clone() } else { vec![c.call.req_msgs.first().cloned().unwrap_or_default()] };
+            for m in &msgs {
+                body.extend(wire::encode_frame(0, m));
+            }
+            let req = http::Request::builder()
+                .method("POST")
+                .uri(format!("http://c03.test:1{}", c.call.shape.path()))
+                .header("content-type", "application/grpc")
+                .header("te", "trailers")
+                .body(http_body_util::Full::new(bytes::Bytes::from(body)))
+                .unwrap();
+            let r = vnet::within(horizon, async {
+                let resp = send.send_request(req).await.map_err(|e| e.to_string())?;
+                let (parts, body) = resp.into_parts();
+                let col = body.collect().await.map_err(|e| e.to_string())?;
+                let trailers = col.trailers().cloned();
+                Ok::<_, String>((parts, col.to_bytes().to_vec(), trailers))
+            })
+            .await;
+            let mut s = seen.lock().unwrap();
+            match r {
+                None => s.error = Some("hang".into()),
+                Some(Err(e)) => s.error = Some(e),
+                Some(Ok((parts, data, trailers))) => {
+                    s.status = Some(parts.status);
+                    s.version = Some(parts.version);
+                    s.headers = parts.headers;
+                    s.data = data;
+                    s.trailers = trailers;
+                }
+            }
+        }
+        let out = seen.lock().unwrap().clone();
+        out
+    })
+}
+
+fn net_body(c: &NetCase, ch: &Chooser) -> Outcome {
+    let s = net_run(c, ch);
+    let mut hs = s.headers.clone();
+    hs.remove("date");
+    hs.remove("user-agent");
+    let mut o = Outcome::new(format!(
+        "{:?} {:?} {:?} status={:?} hdr[{}] data={} trailers={:?} err={:?}",
+        s.method, s.uri.as_ref().map(|u| u.path().to_string()), s.version, s.status, fmt_headers(&hs), hex(&s.data), s.trailers.as_ref().map(fmt_headers), s.error
+    ));
+    o.nontrivial = c.chop != 0 || c.c2s.is_some() || c.call.script.end.is_some();
+    if let Some(e) = &s.error {
+        o.violate(if e == "hang" { "hang" } else { "transport-error" }, format!("non-tonic peer failed to exchange the message: {e}"));
+        return o;
+    }
+    if c.judge_request {
+        if s.requests != 1 {
+            o.violate("net-request-count", format!("{} requests reached the peer", s.requests));
+            return o;
+        }
+        if s.method != Some(http::Method::POST) {
+            o.violate("net-request-method", format!("{:?}", s.method));
+        }
+        if s.version != Some(http::Version::HTTP_2) {
+            o.violate("net-request-version", format!("{:?}", s.version));
+        }
+        if s.uri.as_ref().map(|u| u.path()) != Some(c.call.shape.path()) || s.uri.as_ref().and_then(|u| u.query()).is_some() {
+            o.violate("net-request-path", format!("{:?}", s.uri));
+        }
+        if !header_is(&s.headers, "content-type", "application/grpc") {
+            o.violate("net-request-content-type", fmt_headers(&s.headers));
+        }
+        if !header_is(&s.headers, "te", "trailers") {
+            o.violate("net-request-te", fmt_headers(&s.headers));
+        }
+        if s.trailers.is_some() {
+            o.violate("net-request-trailers", "the request carried trailers");
+        }
+        let announced = s.headers.get("grpc-encoding").and_then(|v| std::str::from_utf8(v.as_bytes()).ok()).and_then(Enc::from_name);
+        let want: Vec<Vec<u8>> = if c.call.shape.streams_requests() { c.call.req_msgs.clone() } else { vec![c.call.req_msgs.first().cloned().unwrap_or_default()] };
+        judge_frames(&mut o, "net-request", &s.data, &want, announced, Some(announced.is_some() as u8));
+    } else {
+        if s.status != Some(http::StatusCode::OK) {
+            o.violate("net-response-status", format!("{:?}", s.status));
+        }
+        if !header_is(&s.headers, "content-type", "application/grpc") {
+            o.violate("net-response-content-type", fmt_headers(&s.headers));
+        }
+        let in_headers = s.headers.get_all("grpc-status").iter().count();
+        let in_trailers = s.trailers.as_ref().map(|t| t.get_all("grpc-status").iter().count()).unwrap_or(0);
+        let body_empty = s.data.is_empty() && s.trailers.is_none();
+        if body_empty {
+            if in_headers != 1 {
+                o.violate("net-response-grpc-status", format!("body-less response with {in_headers} grpc-status headers"));
+            }
+        } else if in_headers != 0 || in_trailers != 1 {
+            o.violate("net-response-grpc-status", format!("grpc-status: {in_headers} in headers, {in_trailers} in trailers"));
+        }
+        let (want, _) = expected_response(&c.call);
+        judge_frames(&mut o, "net-response", &s.data, &want, None, Some(0));
+    }
+    o
+}
+
 pub fn property(tier: Tier) -> Property {
     let a = Section::new(
         "encode-body",
@@ -367,6 +574,29 @@ pub fn property(tier: Tier) -> Property {
         wire_body,
     )
     .mins(500, 10, 100);
+    let mut ncases = vec![];
+    for (i, call) in call_cases(tier).into_iter().enumerate() {
+        if call.free_cuts {
+            continue;
+        }
+        if tier == Tier::Quick && i % 3 != 0 {
+            continue;
+        }
+        let chops: Vec<usize> = if tier == Tier::Thorough { vec![0, 2, 3] } else { vec![[0, 2, 3][i % 3]] };
+        for chop in chops {
+            ncases.push(NetCase { call: call.clone(), judge_request: false, c2s: None, chop });
+            ncases.push(NetCase { call: call.clone(), judge_request: true, c2s: [None, Some(Enc::Gzip), Some(Enc::Zstd)][i % 3], chop });
+        }
+    }
+    let c = Section::new(
+        "transport-wire",
+        Config { max_bound: 1, hang_secs: 60, ..Default::default() },
+        "cases: C02 call cases (quick: every third) x pipe fragmentation pattern, in virtual time over in-memory pipes, against NON-tonic peers: (a) the generated client over the real Channel/hyper/h2 stack talks to a bare hyper HTTP/2 server which records what really arrives: POST, HTTP/2, path, content-type application/grpc, te: trailers, no trailers, body = the request messages framed (compressed as announced); (b) a bare hyper HTTP/2 client sends a hand-built gRPC request to the real tonic Server and records status 200, content-type, exactly one grpc-status (in headers iff nothing else follows, else in the HTTP/2 trailers) and the framed response messages. Non-trivial = fragmenting pattern, compression or an error status.",
+        ncases,
+        |c: &NetCase| format!("judge_request={} c2s={} chop={} {}", c.judge_request, enc_name(c.c2s), c.chop, describe(&c.call)),
+        net_body,
+    )
+    .mins(300, 10, 100);
     Property {
         id: "C03",
         level: "model_checking",
@@ -375,7 +605,7 @@ pub fn property(tier: Tier) -> Property {
             "a handler stream that keeps yielding after its first Err is outside the alphabet".into(),
             "HTTP/2 framing below http::Request/Response (hyper/h2) is trusted; conformance is judged on the http-level message tonic hands to the transport".into(),
         ],
-        sections: vec![a, b],
+        sections: vec![a, b, c],
         extra: Default::default(),
     }
 }
